@@ -25,7 +25,7 @@ void lhasa_verif_tree(const void *tree, unsigned long tree_len, unsigned long el
 {
 	unsigned long i;
 	char buf[200];
-	++lhasa_verif_n_tree;
+	__atomic_fetch_add(&lhasa_verif_n_tree, 1, __ATOMIC_RELAXED);
 	for (i = 0; i < tree_len; ++i) {
 		unsigned long v, leaf;
 		if (elem_size == 1) { v = ((const uint8_t *) tree)[i]; leaf = 0x80; }
@@ -46,11 +46,19 @@ void lhasa_verif_index(const char *table, long idx, unsigned long table_len)
 {
 	int k;
 	char buf[200];
-	++lhasa_verif_n_index;
+	__atomic_fetch_add(&lhasa_verif_n_index, 1, __ATOMIC_RELAXED);
 	for (k = 0; k < 8; ++k) {
-		if (index_names[k] == NULL) index_names[k] = table;
-		if (index_names[k] == table || !strcmp(index_names[k], table)) {
-			if (idx >= 0 && (unsigned long) idx > lhasa_verif_max_index[k]) lhasa_verif_max_index[k] = idx;
+		/* thread-safe registration of the table name (the monitor must not become the race) */
+		const char *cur = __atomic_load_n(&index_names[k], __ATOMIC_ACQUIRE);
+		if (cur == NULL) {
+			const char *expected = NULL;
+			if (__atomic_compare_exchange_n(&index_names[k], &expected, table, 0, __ATOMIC_ACQ_REL, __ATOMIC_ACQUIRE)) cur = table;
+			else cur = expected;
+		}
+		if (cur == table || !strcmp(cur, table)) {
+			unsigned long old = __atomic_load_n(&lhasa_verif_max_index[k], __ATOMIC_RELAXED);
+			while (idx >= 0 && (unsigned long) idx > old
+			    && !__atomic_compare_exchange_n(&lhasa_verif_max_index[k], &old, (unsigned long) idx, 0, __ATOMIC_RELAXED, __ATOMIC_RELAXED)) { }
 			break;
 		}
 	}
@@ -64,7 +72,7 @@ void lhasa_verif_index(const char *table, long idx, unsigned long table_len)
 void lhasa_verif_row(const void *ptr, const void *row_base, unsigned long row_len, const char *where)
 {
 	char buf[200];
-	++lhasa_verif_n_row;
+	__atomic_fetch_add(&lhasa_verif_n_row, 1, __ATOMIC_RELAXED);
 	if ((const char *) ptr < (const char *) row_base
 	 || (const char *) ptr >= (const char *) row_base + row_len) {
 		snprintf(buf, sizeof buf, "kind=row where=%s offset=%ld row_len=%lu", where,
